@@ -6,6 +6,10 @@ Correspondence streams (model = coq/Model/Maxvol.v evaluated by vm_compute):
   qc_exact_tie the same on matrices whose whole run is exact in binary64 (every divisor a power of two, every
                intermediate a short dyadic, e dyadic): argmax ties and threshold ties included, B compared exactly
   qc_rect      maxvol_rect, all 0 <= dr_min <= dr_max (and None), zero-residual forced growth included
+  qc_rect_zero_exact   maxvol_rect on the zero-residual / duplicate-row family (r independent rows + duplicates + zero
+               rows, dr_min forcing growth into rows whose residual is 0) with a run that is exact in binary64:
+               index vector AND B compared exactly.  The model is the code (masked arg-max); a case on which the
+               implementation agrees with the pinned variant np.argmax(F) instead is a MISMATCH (revert of cac7db0).
   qc_dispatch  utils._maxvol incl. n <= r
   errors       wide / square input, inconsistent dr_min / dr_max: exception class exact
   f_maxvol / f_rect   PrimFloat instance + replayed (recorded) LU initialisation, conditioning up to 1e8
@@ -319,6 +323,46 @@ def _sim_rect(B, I0, e, r_min, r_max, dup, exact):
     return I, stopped, safe, forced_zero
 
 
+def _sim_rect_exact(B, I0, e, r_min, r_max, bits=20):
+    """rect phase (masked arg-max) on Fractions, tracking whether the binary64 run is exact: every value of B, v, F, l
+    is a dyadic with at most `bits` significant bits (so every product needs <= 2*bits <= 53 bits) and every divisor
+    1 + v_i is a power of two.  With an exact run all ties are resolved identically by numpy and by the model.
+    Returns I, stopped_by_test, forced_zero, exact"""
+    def sh(x):
+        return _short(x, bits)
+    n = len(B)
+    S = [1] * n
+    for i in I0:
+        S[i] = 0
+    F = [S[a] * sum(x * x for x in B[a]) for a in range(n)]
+    I = list(I0)
+    B = [row[:] for row in B]
+    exact = all(sh(x) for row in B for x in row) and all(sh(x) for x in F)
+    forced_zero, stopped = False, False
+    e2 = e * e
+    for k in range(len(I0), r_max):
+        cands = [a for a in range(n) if S[a]]
+        m = max(F[a] for a in cands)
+        i = next(a for a in cands if F[a] == m)
+        if k >= r_min and m <= e2:
+            stopped = True
+            break
+        if m == 0:
+            forced_zero = True
+        I.append(i)
+        S[i] = 0
+        v = [sum(B[a][j] * B[i][j] for j in range(len(B[a]))) for a in range(n)]
+        lden = 1 + v[i]
+        exact = exact and _pow2(lden) and all(sh(x) for x in v)
+        l = 1 / lden
+        bi = B[i][:]
+        B = [[B[a][j] - l * (v[a] * bi[j]) for j in range(len(bi))] + [l * v[a]] for a in range(n)]
+        F = [S[a] * (F[a] - l * v[a] * v[a]) for a in range(n)]
+        exact = exact and all(sh(x) for row in B for x in row) and all(sh(x) for x in F) and \
+            all(sh(l * x) and sh(l * x * x) for x in v)
+    return I, stopped, forced_zero, exact
+
+
 def _dupclass(A):
     keys = {}
     out = []
@@ -463,7 +507,7 @@ def _run_stream(R, name, items, kind, dist, chunk, tol=1e-9):
     """items: dict(coq=[terms], impl=..., input=..., exact=bool, flagged=bool).  Each case is a list of rty values:
     [repaired-model result, (pinned-model result if flagged), (contract check)]"""
     vals = C.run_cases(f'C08_{name}', HEADER, ['[' + '; '.join(it['coq']) + ']' for it in items], chunk=chunk)
-    bad, s1, biteq = [], [], 0
+    bad, pinned, biteq = [], 0, 0
     for it, v in zip(items, vals):
         R.add_distinct((name, it['input']))
         res = [_model_val(x, kind) for x in v[:2 if it.get('flagged') else 1]]
@@ -472,9 +516,11 @@ def _run_stream(R, name, items, kind, dist, chunk, tol=1e-9):
         if msg is None and kind == 'f' and _bit_equal(res[0], it['impl']):
             biteq += 1
         if msg is not None and it.get('flagged'):
+            # diagnosis only: the model of the code is the masked arg-max; agreeing with the pinned variant is a mismatch
             if _agree(res[1], it['impl'], tol, exact=it.get('exact', False)) is None:
-                s1.append(dict(stream=name, input=it['input'], s1=True, note='implementation = pinned arg-max variant: ' + msg))
-                msg = None
+                pinned += 1
+                msg = ('implementation agrees with the PINNED variant i = np.argmax(F) (maxvol_rect_pinned), not with the '
+                       'model of the code i = np.argmax(np.where(S > 0, F, -1.)): ' + msg)
         for extra in v[(2 if it.get('flagged') else 1):]:
             if extra[0] != 0 and msg is None:
                 msg = 'oracle contract lu_contract_b fails exactly on the recorded initialisation'
@@ -486,16 +532,17 @@ def _run_stream(R, name, items, kind, dist, chunk, tol=1e-9):
     d = dict(dist)
     if kind == 'f':
         d['bit_identical_B'] = biteq
-    if s1:
-        d['cases_matching_pinned_variant_S1'] = len(s1)
+    if any(it.get('flagged') for it in items):
+        d['zero_residual_cases_checked_against_both_variants'] = sum(1 for it in items if it.get('flagged'))
+        d['of_which_impl_matches_pinned_variant_only'] = pinned
     R.corr.append(dict(name=name, cases=len(items), mismatches=len(bad),
-                       comparison=('index vector exact, B exact' if name == 'qc_exact_tie' else
+                       comparison=('index vector exact, B exact' if name in ('qc_exact_tie', 'qc_rect_zero_exact') else
                                    f'index vector / exception class exact, B to {tol:g} relative'),
                        distribution=d, first_mismatches=bad[:3]))
     if items:
         it = items[0]
         R.samples.append(dict(stream=name, input=it['input'], model_I=it['model'][1], impl_I=it['impl'][1]))
-    return bad, s1
+    return bad, pinned
 
 
 def _jin(A):
@@ -517,7 +564,7 @@ def correspondence(R, ctx):
     th = ctx['thorough']
     mult = 6 if th else 1
     rmax = 5 if th else 4
-    bad_all, s1_all = [], []
+    bad_all, n_pinned, n_flagged = [], 0, 0
 
     # ---- qc_maxvol -------------------------------------------------------------------------------
     items, dist = [], dict(kinds={}, r_n=set(), dropped_near_tie=0, swaps={}, limit_hit=0, converged=0)
@@ -651,7 +698,96 @@ def correspondence(R, ctx):
         dist['dr_max_none'] += int(dr_max is None)
     b, s = _run_stream(R, 'qc_rect', items, 'q', dist, chunk=8)
     bad_all += b
-    s1_all += s
+    n_pinned += s
+    n_flagged += sum(1 for it in items if it.get('flagged'))
+
+    # ---- qc_rect_zero_exact: zero-residual / duplicate-row family, whole run exact in binary64 -------------
+    items, dist = [], dict(candidates=0, accepted=0, forced_zero_residual=0, stopped_by_test=0, upper_limit=0,
+                           with_duplicate_rows=0, zero_rows={}, dr={}, r_n=set())
+    fixed_first = [dict(A=[[1], [0]], e=Fr(9, 8), dr_min=1, dr_max=1, e0=Fr(17, 16), k0=10),
+                   dict(A=[[0], [2], [0], [0]], e=Fr(9, 8), dr_min=2, dr_max=None, e0=Fr(17, 16), k0=10),
+                   dict(A=[[0, 0], [1, 0], [1, 0], [0, 2], [0, 0]], e=Fr(9, 8), dr_min=3, dr_max=3, e0=Fr(17, 16), k0=10),
+                   dict(A=[[1, 2, 0], [0, 1, 3], [2, 0, 1], [0, 0, 0], [0, 0, 0], [0, 0, 0], [0, 0, 0]],
+                        e=Fr(9, 8), dr_min=2, dr_max=None, e0=Fr(17, 16), k0=10)]
+    tries = 0
+    while len(items) < 70 * mult and tries < 30000 * mult:
+        tries += 1
+        if fixed_first:
+            g = fixed_first.pop(0)
+            A = [[Fr(x) for x in row] for row in g['A']]
+            r, n = len(A[0]), len(A)
+            e, dr_min, dr_max, e0, k0 = g['e'], g['dr_min'], g['dr_max'], g['e0'], g['k0']
+        else:
+            r = rng.randint(1, 3)
+            nb = r + rng.randint(0, 2)                   # rows of an exact-LU block (full column rank)
+            M = _gen_lu_exact(rng, r, max(nb, r + 1), 'generic')[:nb]
+            if len(M) < r or not _rank_ok(M + [[Fr(0)] * r]):
+                continue
+            rows = [list(x) for x in M]
+            for _ in range(rng.randint(0, 2)):           # duplicates of rows of the block
+                rows.append(list(rng.choice(M)))
+            nzero = rng.randint(1, 3)
+            rows += [[Fr(0)] * r for _ in range(nzero)]
+            rng.shuffle(rows)
+            A = rows
+            n = len(A)
+            if n <= r:
+                continue
+            e, e0 = rng.choice(E_DY), rng.choice(E_DY)
+            k0 = rng.choice([0, 1, 2, 10])
+            # two cases out of three: dr_min reaches into the zero rows
+            nonzero = sum(1 for row in A if any(x != 0 for x in row))
+            lo = max(0, nonzero - r + 1) if len(items) % 3 != 0 else 0
+            if lo > n - r:
+                continue
+            dr_min = rng.randint(lo, n - r)
+            dr_max = rng.choice([None, dr_min, n - r, rng.randint(dr_min, n - r + 1)])
+        dist['candidates'] += 1
+        try:
+            I0, B0, tf, ex = _sim_lu(A)
+        except Singular:
+            continue
+        if not ex:
+            continue
+        I1, B1, sw, conv, safe, ex2 = _sim_loop(B0, I0, e0, k0, True, True)
+        if not ex2:
+            continue
+        r_min = r + dr_min
+        r_max = min(n, n if dr_max is None else r + dr_max)
+        I2, stopped, fz, ex3 = _sim_rect_exact(B1, I1, e, r_min, r_max)
+        if not ex3:
+            continue
+        with Recorder() as rec:
+            impl = _impl(tn.maxvol_rect, _fA(A), float(e), dr_min, dr_max, float(e0), k0)
+        if not rec.calls:
+            continue
+        rI0, rB0 = rec.calls[0]
+        # a-posteriori: the recorded initialisation must be the exact one, otherwise the run is not exact in binary64
+        if rI0 != I0 or any(Fr(float(rB0[a, j])) != B0[a][j] for a in range(n) for j in range(r)):
+            continue
+        args = f'{_qmat(A)} {_qe(e)} ({dr_min})%Z {_optz(dr_max)} {_qe(e0)} {k0}'
+        coq = [f'showRQ (maxvol_rect OQc QX {args})']
+        if fz:
+            coq.append(f'showRQ (maxvol_rect_pinned OQc QX {args})')
+        rB0q = '(mk_mat %d %d %s)' % (n, r, C.nested([[Fr(float(x)) for x in row] for row in rB0.tolist()], C.qlit))
+        coq.append(f'showB (lu_contract_b OQc {_qmat(A)} {_natl(rI0)} {rB0q})')
+        items.append(dict(coq=coq, impl=impl, flagged=fz, exact=True,
+                          input=dict(f='maxvol_rect', A=_jin(A), e=str(e), dr_min=dr_min, dr_max=dr_max, e0=str(e0), k0=k0,
+                                     exact=True)))
+        dist['accepted'] += 1
+        dist['forced_zero_residual'] += int(fz)
+        dist['stopped_by_test' if stopped else 'upper_limit'] += 1
+        dist['with_duplicate_rows'] += int(len(set(map(tuple, A))) < n - (sum(1 for row in A if not any(row)) - 1))
+        nz = sum(1 for row in A if not any(row))
+        dist['zero_rows'][nz] = dist['zero_rows'].get(nz, 0) + 1
+        key = f'{dr_min},{dr_max}'
+        dist['dr'][key] = dist['dr'].get(key, 0) + 1
+        dist['r_n'].add((r, n))
+    dist['r_n'] = sorted(dist['r_n'])
+    b, s = _run_stream(R, 'qc_rect_zero_exact', items, 'q', dist, chunk=8)
+    bad_all += b
+    n_pinned += s
+    n_flagged += sum(1 for it in items if it.get('flagged'))
 
     # ---- qc_dispatch (utils._maxvol) ---------------------------------------------------------------
     items, dist = [], dict(trivial_n_le_r=0, to_maxvol=0, to_rect=0, dropped_near_tie=0, forced_zero_residual=0)
@@ -692,7 +828,8 @@ def correspondence(R, ctx):
                           input=dict(f='_maxvol', A=_jin(A), tau=str(tau), dr_min=dr_min, dr_max=dr_max, tau0=str(tau0), k0=k0)))
     b, s = _run_stream(R, 'qc_dispatch', items, 'q', dist, chunk=8)
     bad_all += b
-    s1_all += s
+    n_pinned += s
+    n_flagged += sum(1 for it in items if it.get('flagged'))
 
     # ---- errors ------------------------------------------------------------------------------------
     items, dist = [], dict(wide_or_square=0, bad_dr=0)
@@ -790,16 +927,17 @@ def correspondence(R, ctx):
         dist['r_n'] = sorted(dist['r_n'])
         b, s = _run_stream(R, name, items, 'f', dist, chunk=6)
         bad_all += b
-        s1_all += s
+        n_pinned += s
+        n_flagged += sum(1 for it in items if it.get('flagged'))
 
-    if s1_all:
-        R.notes.append(f'{len(s1_all)} correspondence cases with zero-residual forced growth: the implementation agrees '
-                       f'with the PINNED arg-max variant of the model (maxvol_rect_pinned), not with the repaired one '
-                       f'(finding {FINDING_KEY})')
+    if n_pinned:
+        R.notes.append(f'{n_pinned} of {n_flagged} zero-residual forced-growth cases: the implementation agrees with the '
+                       f'PINNED variant i = np.argmax(F) (maxvol_rect_pinned), not with the model of the code; counted '
+                       f'as correspondence mismatches (fix cac7db0 reverted? finding {FINDING_KEY})')
     else:
-        R.notes.append('on every zero-residual forced-growth case the implementation agrees with the repaired arg-max '
-                       'variant of the model (maxvol_rect)')
-    return bad_all + s1_all
+        R.notes.append(f'on all {n_flagged} zero-residual forced-growth cases the implementation agrees with the model '
+                       f'of the code (masked arg-max) and, where the two differ, not with the pinned variant')
+    return bad_all
 
 
 # ----------------------------------------------------------------------------------------------------
